@@ -160,9 +160,30 @@ def run(ctx):
         ctx.ob("R3", inst, ok, what=what, where=fn.loc())
 
     wcm = P.fn("WalManager::write_checkpoint_metadata")
-    check_order(wcm, lambda t: _is(callee_name(t), SYNC_ALL), lambda t: _is(callee_name(t), RENAME),
-                "WalManager::write_checkpoint_metadata#sync-before-rename",
-                "the checkpoint metadata temp file is renamed into place without a dominating fsync: a crash can leave an empty or partial metadata file")
+
+    def atomic_replace(fn, inst):
+        """the live metadata file only ever appears by rename of a completely written temp file: the function renames, and
+        what it creates / opens for writing is the rename's source, never its destination"""
+        fx = FlowCx(P, fn)
+        ren = [(bi, t) for bi, t in fn.calls() if _is(callee_name(t), RENAME)]
+        cre = [(bi, t) for bi, t in fn.calls() if callee_name(t).split("::")[-1] in ("create", "create_new") and "File" in callee_name(t)
+               or callee_name(t).endswith("OpenOptions::open")]
+        if not cre and not ren:
+            raise CheckerError("C06-R3 %s: neither a file creation nor a rename found in %s" % (inst, fn.id))
+        srcs = [fx.tags(t["args"][0]) for bi, t in ren]
+        dsts = [fx.tags(t["args"][1]) for bi, t in ren if len(t["args"]) > 1]
+        ok = bool(ren) and all(any(fx.tags(t["args"][-1] if callee_name(t).endswith("OpenOptions::open") else t["args"][0]) == s_ for s_ in srcs) for bi, t in cre)             and not any(fx.tags(t["args"][-1] if callee_name(t).endswith("OpenOptions::open") else t["args"][0]) in dsts and
+                        fx.tags(t["args"][-1] if callee_name(t).endswith("OpenOptions::open") else t["args"][0]) not in srcs for bi, t in cre)
+        ctx.ob("R3", inst, ok,
+               what="%s writes the checkpoint metadata file in place (%d rename calls, %d files created): File::create truncates the "
+                    "live file first, so a crash or a failed write during a checkpoint leaves an empty or partial metadata file and "
+                    "the next open fails" % (short_id(fn.id), len(ren), len(cre)), where=fn.loc())
+        return bool(ren)
+
+    if atomic_replace(wcm, "WalManager::write_checkpoint_metadata#atomic-replace"):
+        check_order(wcm, lambda t: _is(callee_name(t), SYNC_ALL), lambda t: _is(callee_name(t), RENAME),
+                    "WalManager::write_checkpoint_metadata#sync-before-rename",
+                    "the checkpoint metadata temp file is renamed into place without a dominating fsync: a crash can leave an empty or partial metadata file")
     ck = P.fn("WalManager::checkpoint")
     sync = P.fn("WalManager::sync")
     check_order(ck, lambda t: callee_name(t) == sync.id, lambda t: callee_name(t) == wcm.id,
@@ -189,7 +210,9 @@ def run(ctx):
         fs_ = [f for f in P.fns.values() if f.id.startswith("grafeo_adapters::storage::wal::async_log::AsyncWalManager::%s::{closure" % nm)]
         for f in fs_:
             if nm == "write_checkpoint_metadata":
-                if any(_is(callee_name(t), RENAME) for bi, t in f.calls()):
+                touches = any(_is(callee_name(t), RENAME) or (callee_name(t).split("::")[-1] in ("create", "create_new") and "File" in callee_name(t))
+                              or callee_name(t).endswith("OpenOptions::open") for bi, t in f.calls())
+                if touches and atomic_replace(f, "AsyncWalManager::write_checkpoint_metadata#atomic-replace"):
                     check_order(f, lambda t: _is(callee_name(t), SYNC_ALL), lambda t: _is(callee_name(t), RENAME),
                                 "AsyncWalManager::write_checkpoint_metadata#sync-before-rename",
                                 "async checkpoint metadata is renamed into place without a dominating fsync")
